@@ -66,6 +66,56 @@ def run_c01(ctx):
                 infra_error="; ".join(vac) if vac else None)
 
 
+# ------------------------------------------------------------------------------------------- C04 / C16
+def _infra(level, r):
+    return dict(level=level, coverage={"states": 1, "transitions": 1, "traces_validated_against_impl": 0, "samples": ["-"]}, violations=[], infra_error=r["infra_error"])
+
+
+def run_c04(ctx):
+    r = run_engine(ctx, "mc_hist", ["--mode", "c04"])
+    if "infra_error" in r:
+        return _infra("model_checking", r)
+    cov = {
+        "states": r["states"], "transitions": r["transitions"] + r["tree_histories"] * r["L"],
+        "traces_validated_against_impl": r["sessions"] + r["tree_histories"],
+        "samples": r["samples"] or ["(none)"], "exhaustive": True,
+        "bounds": ["sessions: every script of <= %d ops over {1,0,IF,NOTIF,ELSE,ENDIF,TOALTSTACK,FROMALTSTACK,DUP,DROP,ADD,CODESEPARATOR,NOP} x {BASE,WITNESS_V0,TAPSCRIPT} that completes without a failing step, plus hand-shaped sessions (nested IF, op count 201, code separators, tapscript signature budget, scriptSig->scriptPubKey, P2SH)" % (4 if ctx.tier == "quick" else 5),
+                   "(a) fixpoint BFS over {step, rewind} with dedup on the full canonical state", "(b) complete history tree to depth L=%d without dedup" % r["L"]],
+        "candidate_sessions": r["specs"], "sessions_in_domain": r["sessions"], "sessions_with_failing_step_skipped": r["skipped_sessions_with_failing_step"],
+        "rewinds_accepted": r["rewinds_accepted"], "rewinds_refused": r["rewinds_refused"], "rewinds_undoing_a_state_changing_step": r["nontrivial_rewinds"],
+        "history_tree_histories": r["tree_histories"],
+    }
+    vac = None
+    if r["sessions"] < 100 or r["nontrivial_rewinds"] < 100:
+        vac = "vacuous exploration: %d sessions, %d non-trivial rewinds" % (r["sessions"], r["nontrivial_rewinds"])
+    return dict(level="model_checking", coverage=cov, violations=r["violations"],
+                assumptions=["oracle is differential (fresh session advanced by the net number of steps); compared state: stack, altstack, condition-stack projection, script, pc, pend, pbegincodehash, m_codeseparator_pos, m_validation_weight_left, opcode_pos, nOpCount, curr_op_seq, done, is_p2sh, successor script, history vectors",
+                             "sessions containing a failing step are outside the property's quantifier and are skipped"],
+                summary="%d sessions, %d states, %d tree histories" % (r["sessions"], r["states"], r["tree_histories"]), infra_error=vac)
+
+
+def run_c16(ctx):
+    r = run_engine(ctx, "mc_hist", ["--mode", "c16"])
+    if "infra_error" in r:
+        return _infra("model_checking", r)
+    cov = {
+        "states": r["sessions"], "transitions": r["evals"], "traces_validated_against_impl": r["evals"],
+        "samples": r["samples"] or ["(none)"], "exhaustive": True,
+        "bounds": ["at every prefix of %d sessions: exec of every op list of length 1..%d over %d tokens (opcode names with/without OP_, integers -1..17, hex pushes, one failing op per error class)" % (r["sessions"], r["exec_maxlen"], r["exec_tokens"])],
+        "evals_where_reference_fails": r["evals_ref_failing"], "evals_where_reference_succeeds": r["evals"] - r["evals_ref_failing"],
+    }
+    vac = None
+    if r["evals"] < 1000 or r["evals"] == r["evals_ref_failing"]:
+        vac = "vacuous exploration"
+    return dict(level="model_checking", coverage=cov, violations=r["violations"],
+                assumptions=["reference: the same operations spliced into the script at the current position and executed by the reference interpreter; continuation of the session compared with continuation of the spliced script",
+                             "OP_CODESEPARATOR is excluded from exec's conformance alphabet (its 'as if in the script' meaning is undefined for a temporary script); hex pushes are those whose direct push is minimal",
+                             "sessions carry no transaction, so the error code of a failing Schnorr check is not compared"],
+                summary="%d sessions, %d evals" % (r["sessions"], r["evals"]), infra_error=vac)
+
+
 PROPS = {
+    "C04": dict(targets=["mc_hist"], run=run_c04, replay=replay_engine("mc_hist")),
+    "C16": dict(targets=["mc_hist"], run=run_c16, replay=replay_engine("mc_hist")),
     "C01": dict(targets=["mc_script"], run=run_c01, replay=replay_engine("mc_script")),
 }
